@@ -861,9 +861,11 @@ def has_side_effect(node: ast.AST, safe_callable_whitelist: Collection[str] = fr
         )
 
     if isinstance(node, ast.Call):
-        # like e.g. "".join()
+        # like e.g. "".join(). That goes for what is called here, not for what the arguments call:
+        # in "".join(join(parts)) the inner join is a function of the module.
+        callee_whitelist = safe_callable_whitelist
         if isinstance(node.func, ast.Attribute) and isinstance(node.func.value, ast.Constant):
-            safe_callable_whitelist = safe_callable_whitelist | {node.func.attr}
+            callee_whitelist = safe_callable_whitelist | {node.func.attr}
 
         # f()() calls what f returns, which is not known by name
         if any(isinstance(child, ast.Call) for child in ast.walk(node.func)):
@@ -878,13 +880,13 @@ def has_side_effect(node: ast.AST, safe_callable_whitelist: Collection[str] = fr
 
         return (
             not all(
-                child.id in safe_callable_whitelist or child.id == "_"
+                child.id in callee_whitelist or child.id == "_"
                 for child in ast.walk(node.func)
                 if isinstance(child, ast.Name)
             )
             or any(has_side_effect(item, safe_callable_whitelist) for item in node.args)
             or any(has_side_effect(item.value, safe_callable_whitelist) for item in node.keywords)
-            or not all(child.attr in safe_callable_whitelist for child in walk(node, ast.Attribute))
+            or not all(child.attr in callee_whitelist for child in walk(node, ast.Attribute))
         )
 
     if isinstance(node, ast.Starred):
